@@ -34,57 +34,75 @@
 (*                                                                           *)
 (* Deviations (not in the code; sensitivity of the convergence clause):       *)
 (*   "conflict_keeps_existing"  concurrent versions: the local one is kept    *)
+(*   "merged_winner_dropped"    merging resolver: the synthesised winner (which*)
+(*                              is neither input object) is not installed     *)
 (*   "ae_one_way"               the peer never answers the requester          *)
 EXTENDS Naturals, Sequences, FiniteSets
 
 CONSTANTS Dev
 
 Max2(a, b) == IF a >= b THEN a ELSE b
+SetMax(S) == IF S = {} THEN 0 ELSE CHOOSE m \in S : \A x \in S : x <= m
 
-MInit(n, nk) ==
-    [n |-> n, nk |-> nk, wr |-> <<>>, clock |-> 1,
+\* A VERSION is the set of write ids whose values it contains: a client write w is {w}; a merging resolver
+\* (VectorClockMerge(merge_fn = union of the values, element-wise max of the clocks), or a CustomResolver
+\* that builds such a value) turns two concurrent versions into their union.  {} = key absent.
+\* mode "lww": pick-one resolver (LastWriterWins & equivalents) -- versions stay singletons.
+\* mode "merge": merging resolver.
+MInit(n, nk, mode) ==
+    [n |-> n, nk |-> nk, mode |-> mode, wr |-> <<>>, clock |-> 1,
      vc |-> [i \in 1..n |-> [j \in 1..n |-> 0]],
-     ver |-> [i \in 1..n |-> [k \in 1..nk |-> 0]],
+     ver |-> [i \in 1..n |-> [k \in 1..nk |-> {}]],
      q |-> [i \in 1..n |-> <<>>],
      msgs |-> {}, acked |-> {}, aed |-> {}]
 
+\* vector clock / timestamp / writer of a version (a merged version carries the element-wise max)
+VC(wr, n, S) == [j \in 1..n |-> SetMax({ wr[w].vc[j] : w \in S })]
+TS(wr, S) == SetMax({ wr[w].ts : w \in S })
+WR(wr, S) == SetMax({ wr[w].n : w \in S })
 Dom(a, b, n) == (\A j \in 1..n : a[j] >= b[j]) /\ (\E j \in 1..n : a[j] > b[j])
 
 \* LastWriterWins.resolve(key, [existing, incoming]): max by (timestamp, writer), first on ties
 LwwIncomingWins(wr, e, x) ==
-    \/ wr[x].ts > wr[e].ts
-    \/ wr[x].ts = wr[e].ts /\ wr[x].n > wr[e].n
+    \/ TS(wr, x) > TS(wr, e)
+    \/ TS(wr, x) = TS(wr, e) /\ WR(wr, x) > WR(wr, e)
 
-\* which version does a node holding e (0 = none) keep when it meets x (never 0)?
-Reconcile(wr, n, e, x) ==
-    IF e = 0 THEN x
-    ELSE IF Dom(wr[x].vc, wr[e].vc, n) THEN x
-    ELSE IF Dom(wr[e].vc, wr[x].vc, n) THEN e
-    ELSE IF "conflict_keeps_existing" \in Dev THEN e
-    ELSE IF LwwIncomingWins(wr, e, x) THEN x ELSE e
+\* A node holding version e meets version x (never {}): which version does it hold afterwards (v), and does
+\* it write its store (put)?  The code tests "winner is not existing": a merging resolver returns a NEW
+\* object, so the store is written even when the union adds nothing.
+Decide(s, e, x) ==
+    LET ve == VC(s.wr, s.n, e)
+        vx == VC(s.wr, s.n, x)
+    IN IF e = {} THEN [v |-> x, put |-> TRUE]
+       ELSE IF Dom(vx, ve, s.n) THEN [v |-> x, put |-> TRUE]
+       ELSE IF Dom(ve, vx, s.n) THEN [v |-> e, put |-> FALSE]
+       ELSE IF "conflict_keeps_existing" \in Dev THEN [v |-> e, put |-> FALSE]
+       ELSE IF s.mode = "merge"
+       THEN IF "merged_winner_dropped" \in Dev THEN [v |-> e, put |-> FALSE]
+            ELSE [v |-> e \cup x, put |-> TRUE]
+       ELSE IF LwwIncomingWins(s.wr, e, x) THEN [v |-> x, put |-> TRUE] ELSE [v |-> e, put |-> FALSE]
 
 MWrite(s, i, k, t) ==
     LET v == [s.vc[i] EXCEPT ![i] = @ + 1]
         w == Len(s.wr) + 1
     IN [s EXCEPT !.clock = t, !.vc[i] = v,
                  !.wr = Append(@, [n |-> i, k |-> k, ts |-> t, vc |-> v]),
-                 !.q[i] = Append(@, [kind |-> "w", w |-> w]),
+                 !.q[i] = Append(@, [kind |-> "w", w |-> w, v |-> {w}]),
                  !.aed = {}]
 
 CanMDeliver(s, i, w) == <<i, w>> \in s.msgs
 MDeliver(s, i, w) ==
     LET x == s.wr[w]
         v == [j \in 1..s.n |-> IF j = i THEN Max2(s.vc[i][j], x.vc[j]) + 1 ELSE Max2(s.vc[i][j], x.vc[j])]
-        e == s.ver[i][x.k]
-        take == Reconcile(s.wr, s.n, e, w) = w /\ e # w
+        d == Decide(s, s.ver[i][x.k], {w})
     IN [s EXCEPT !.msgs = @ \ {<<i, w>>}, !.vc[i] = v,
-                 !.q[i] = IF take THEN Append(@, [kind |-> "r", w |-> w]) ELSE @]
+                 !.q[i] = IF d.put THEN Append(@, [kind |-> "r", w |-> w, v |-> d.v]) ELSE @]
 
 CanMPutDone(s, i) == s.q[i] # <<>>
 MPutDone(s, i) ==
     LET p == Head(s.q[i])
         k == s.wr[p.w].k
-        s1 == [s EXCEPT !.q[i] = Tail(@), !.ver[i][k] = p.w]
+        s1 == [s EXCEPT !.q[i] = Tail(@), !.ver[i][k] = p.v]
     IN IF p.kind = "w"
        THEN [s1 EXCEPT !.msgs = @ \cup { <<j, p.w>> : j \in (1..s.n) \ {i} },
                        !.acked = @ \cup {p.w},
@@ -95,12 +113,12 @@ MQuiet(s) == s.msgs = {} /\ \A i \in 1..s.n : s.q[i] = <<>>
 
 \* reconcile a whole version map (remote entries only for keys the sender has)
 MergeMap(s, mine, theirs) ==
-    [k \in 1..s.nk |-> IF theirs[k] = 0 THEN mine[k] ELSE Reconcile(s.wr, s.n, mine[k], theirs[k])]
+    [k \in 1..s.nk |-> IF theirs[k] = {} THEN mine[k] ELSE Decide(s, mine[k], theirs[k]).v]
 
 CanMAE(s, i, j) == i # j /\ MQuiet(s)
 MAE(s, i, j) ==
     LET vj == MergeMap(s, s.ver[j], s.ver[i])
-        answer == vj # s.ver[i] /\ "ae_one_way" \notin Dev     \* values are version ids: same map = same Merkle root
+        answer == vj # s.ver[i] /\ "ae_one_way" \notin Dev     \* same key->value map = same Merkle root
         vi == IF answer THEN MergeMap(s, s.ver[i], vj) ELSE s.ver[i]
     IN [s EXCEPT !.ver[j] = vj, !.ver[i] = vi, !.aed = @ \cup {{i, j}}]
 
